@@ -10,3 +10,10 @@ def _(v: List[Tuple[Key, Rec]], rev: Bool) -> List[Tuple[Key, Rec]]:
     ensures(len(sort_perm(contents(v), len(v))) == len(v), 'perm_len')
     ensures(forall(Int, lambda j: implies(0 <= j and j < len(v), 0 <= sort_perm(contents(v), len(v))[j] and sort_perm(contents(v), len(v))[j] < len(v))), 'perm_range')
     ensures(forall(Int, Int, lambda a, b: implies(0 <= a and a < b and b < len(v), sort_perm(contents(v), len(v))[a] != sort_perm(contents(v), len(v))[b])), 'perm_injective')
+
+
+@trusted('builtins.sorted.cells', trusted='A-SORT: sorted(xs) on numbers is the ascending stable sort (insertion-sort spec ssort_cells); validated boundedly')
+def _(v: List[Cell]) -> List[Cell]:
+    requires(all_numeric(contents(v)), 'numbers_only')
+    ensures(is_fresh(result) and contents(result) == ssort_cells(contents(v)) and len(result) == len(v), 'sorted_copy')
+    ensures(forall(Int, lambda i: implies(0 <= i and i < len(v), is_num(contents(result)[i]))), 'numbers')
